@@ -93,10 +93,12 @@ STMT = {
     "dropcol": "    drop(col);",
     "dropit": "    drop(it);",
     "dropb": "    drop(b);",
-    "user": "    if let Some(x) = r { let _y = x.clone(); }",
-    "usec": "    if let Some(x) = c { let _n = x.values.count(); }",
-    "usek1": "    if let Some(x) = k1 { let _n = x.values.count(); }",
-    "usek2": "    if let Some(x) = k2 { let _n = x.values.count(); }",
+    # unconditional moves (an `if let Some(x) = c` moves c only on one path, which leaves c maybe-initialised and
+    # its drop at the end of the scope a use of the borrow; the model's use statement consumes the variable)
+    "user": "    drop(r.map(|x| x.clone()));",
+    "usec": "    drop(c.map(|x| x.values.count()));",
+    "usek1": "    drop(k1.map(|x| x.values.count()));",
+    "usek2": "    drop(k2.map(|x| x.values.count()));",
     "intoseq": "    let s = it.into_seq_iter(); drop(s);",
 }
 MKIT = {"vecref": "    let it = col.con_iter();", "vec": "    let it = col.into_con_iter();",
